@@ -32,13 +32,16 @@ RecsOf(e) == IF e.op = "getPos"
              ELSE ToSet(e.recs)
 ResOf(e) == [err |-> e.err, inj |-> e.inj, un |-> e.un, n |-> e.n, recs |-> RecsOf(e)]
 
-\* the named deviations that explain a step the ideal contract rejects: each single one first, then all together
+\* the named deviations that explain a step the ideal contract rejects: the smallest sets of enabled deviations
+\* under which the observed (state, result) is an outcome of the design
 Explains(S, e, op, a, res) == [db |-> a, res |-> res] \in Outcomes(FOf(S), e.be, op, db)
 KFUsed(e, op, a, res) ==
-    LET singles == {n \in KFNames : Explains({n}, e, op, a, res)} IN
-    IF singles # {} THEN singles
-    ELSE IF KFNames # {} /\ Explains(KFNames, e, op, a, res) THEN KFNames
-    ELSE {}
+    LET expl == {S \in SUBSET KFNames : S # {} /\ Explains(S, e, op, a, res)} IN
+    IF expl = {} THEN {}
+    ELSE LET k == CHOOSE n \in 1..Cardinality(KFNames) :
+                      /\ \E S \in expl : Cardinality(S) = n
+                      /\ \A S \in expl : Cardinality(S) >= n
+         IN UNION {S \in expl : Cardinality(S) = k}
 
 TInit == Init /\ tr \in 1..Len(Traces) /\ l = 1
 
